@@ -272,12 +272,14 @@ def run(chk):
             of = os.path.join(wd, "tw%d-%d-fresh.pdf" % (k, fi))
             tw_lines.append("rewrite_twice %s file %s %s %s %s" % (inp.replace(" ", "\\ "), o1, f1, o2, f2))
             tw_lines.append("rewrite_twice %s file %s %s" % (inp.replace(" ", "\\ "), of, f2))
-            tw_meta.append((inp, f1, f2, o2, of))
+            op = os.path.join(wd, "tw%d-%d-freshpush.pdf" % (k, fi))
+            tw_lines.append("rewrite_twice %s file %s %s,pushfirst" % (inp.replace(" ", "\\ "), op, f2))
+            tw_meta.append((inp, f1, f2, o2, of, op))
     tres = common.run_lines(drv, tw_lines, shards=4)
     tit = iter(tres)
     tw_nt = set()
-    for inp, f1, f2, o2, of in tw_meta:
-        r1, r2 = next(tit), next(tit)
+    for inp, f1, f2, o2, of, op in tw_meta:
+        r1, r2, r3 = next(tit), next(tit), next(tit)
         if not (r1.startswith("ok") and r2.startswith("ok")):
             continue
         tw_nt.add((inp, f1, f2))
@@ -287,7 +289,9 @@ def run(chk):
             chk.violation({"kind": "property-fails-on-implementation", "why": "the second write of one QPDF object differs from the write of a freshly opened document with the same options",
                            "input": inp, "first_write_flags": f1, "second_write_flags": f2, "first_difference_at": first, "sizes": [len(d2), len(df)],
                            "second": d2[max(0, first - 40):first + 40].decode("latin-1"), "fresh": df[max(0, first - 40):first + 40].decode("latin-1")},
-                          signature="write-twice:%s" % ("extensions" if b"/Extensions" in d2[max(0, first - 200):first + 200] + df[max(0, first - 200):first + 200] else "other"))
+                          signature="C09:write-twice-after-linearize" if ("lin" in f1.split(",") and r3.startswith("ok") and d2 == open(op, "rb").read()) else
+                          "C09:write-twice-extensions" if b"/Extensions" in open(inp, "rb").read() else
+                          "write-twice:%s" % ("extensions" if b"/Extensions" in d2[max(0, first - 200):first + 200] + df[max(0, first - 200):first + 200] else "other"))
     chk.count("write-twice", len(tw_lines), tw_nt, samples=[{"case": tw_lines[0]}] if tw_lines else [])
 
     # ---- host locale: the same job in-process under the classic global C++ locale and under one with a decimal comma and
